@@ -42,15 +42,14 @@ FROZEN_ASSUMED = [('src/parallel.rs', "impl<'t, D: Distance> ImmutableLeafs<'t, 
 
 BUILD_CHAIN = {'tmp_nodes': ['TmpNodesC::put', 'TmpNodesC::remap', 'TmpNodesC::remove'], 'trees_new': ['ImmutableTrees::new', 'ImmutableTrees::sub_tree_from_id', 'ImmutableTrees::empty', 'NodeId::unwrap_tree'], 'insert_glue': ['Writer::insert_items_in_tree'], 'insert_driver': ['Writer::insert_items_in_current_trees'], 'iict_lib': None,
                'incr_driver': ['Writer::incremental_index_large_descendants'], 'incr_lib': None,
-               'build': ['Writer::build', 'meta_roots_'], 'build_lib': None, 'inv_lib': None,
+               'build': ['Writer::build', 'meta_roots_'], 'build_lib': None, 'inv_lib': None, 'used_nodes': ['Writer::used_tree_node'],
                'builder_opts': ['BuildOption::default', 'Writer::builder', 'ArroyBuilder::n_trees', 'ArroyBuilder::split_after', 'ArroyBuilder::available_memory', 'ArroyBuilder::build']}
 TMP = "impl<'a, DE: BytesEncode<'a>> TmpNodes<DE>"
 BUILD_ASSUMED = [('src/writer.rs', 'impl<D: Distance> Writer<D>', 'pre_process_items'),
-                 ('src/writer.rs', 'impl<D: Distance> Writer<D>', 'used_tree_node'),
                  ('src/parallel.rs', TMP, 'new'), ('src/parallel.rs', TMP, 'new_in')]
 BUILD_TRUSTED = [
     'A5 (build-level, not proved): while the id generator of a build is alive, every tree id of the index in the database was present when the generator was created or was issued by it; hence an id it returns is not a tree key of the current view (ConcurrentNodeIds::next_v_) nor of the view a staging area was created under (TmpNodes::taken, rules R12/R12b/R14); axiom_generator_covers ties this to the set passed to ConcurrentNodeIds::new',
-    'A6: rule R11 renders the rayon map of insert_items_in_tree as the sequential loop over the same closure body (proved: one result per root, each satisfying the PROVED contract of insert_items_in_file for a fresh staging area; errors propagate); what the interleaving adds is assumed as axiom_distinct_staging: ids handed to different staging areas during one call are different (the sequential restatement of C13). pre_process_items only rewrites item leaves of the index in place (no key added or removed, encoded length kept); used_tree_node (A1) reports every tree id of the index (assumed, drift-guarded). ImmutableTrees::new / sub_tree_from_id / empty are PROVED in unit trees_new (every tree node of the index / exactly the subtree, with the database values; the (len, ptr) pairs are abstracted as the mapped bytes, the unsafe slice reconstruction in ImmutableTrees::get stays assumed); callers additionally use a ghost-only name db_has for the tree ids the database held when the view was frozen',
+    'A6: rule R11 renders the rayon map of insert_items_in_tree as the sequential loop over the same closure body (proved: one result per root, each satisfying the PROVED contract of insert_items_in_file for a fresh staging area; errors propagate); what the interleaving adds is assumed as axiom_distinct_staging: ids handed to different staging areas during one call are different (the sequential restatement of C13). pre_process_items only rewrites item leaves of the index in place (no key added or removed, encoded length kept); used_tree_node is PROVED in unit used_nodes (exactly the tree ids of the index; a cancellation or read error met during the fold is returned — defect F10, repaired — over a trusted stand-in of Iterator::try_fold with a ghost fold invariant). ImmutableTrees::new / sub_tree_from_id / empty are PROVED in unit trees_new (every tree node of the index / exactly the subtree, with the database values; the (len, ptr) pairs are abstracted as the mapped bytes, the unsafe slice reconstruction in ImmutableTrees::get stays assumed); callers additionally use a ghost-only name db_has for the tree ids the database held when the view was frozen',
     'ghost parameter: incremental_index_large_descendants receives the roots of the forest as a ghost argument (//@ghostparam, //@ghostarg Ghost(roots@) at its call in build); erased at run time',
     'precondition of build: index_inv (tree keys hold tree nodes, leaves have one length, and when metadata exists: the forest it records is well formed over metadata.items with buckets within the capacity, and an id without an updated mark is stored iff the trees hold it); build re-establishes it (built ==> index_inv); unit inv_lib proves that the exact post-states which unit store / writer_scans prove for add_item, append_item, del_item, clear, prepare_changing_distance (its postcondition is literally the precondition of lemma_inv_no_forest), rejected calls and operations on other indexes preserve it (the new leaf having the common encoded length is a hypothesis there: a codec fact); the composition over a history is by matching those post-states with the lemma preconditions, not one mechanised induction (stating the preservation inside the store contracts was tried and withdrawn: the proof hints it needs made four seeded changes of those functions undecided instead of detected)',
 ]
@@ -101,10 +100,10 @@ PROPS = {
                                    'Writer::prepare_changing_distance', 'clear_tree_nodes', 'lemma_tree_range'],
                   'tree_drivers': TREE_DRIVERS, 'insert_driver': ['Writer::insert_items_in_current_trees'], 'incr_driver': ['Writer::incremental_index_large_descendants'],
                   'trees_new': ['ImmutableTrees::new', 'ImmutableTrees::sub_tree_from_id'], 'insert_glue': ['Writer::insert_items_in_tree'],
-                  'build': ['Writer::build'], 'inv_lib': None},
+                  'build': ['Writer::build'], 'inv_lib': None, 'used_nodes': ['Writer::used_tree_node']},
         'kani': {'quick': [('key_layout', KEY_LAYOUT_ALL)]},
         'assumed_fns': WB_ASSUMED + BUILD_ASSUMED,
-        'trusted': ['build and its drivers: the frame clause same_except(old, final, index, ..) is an UNCONDITIONAL postcondition (it also holds on every error exit); the glue functions insert_items_in_tree / pre_process_items / used_tree_node are assumed to stay within the index (A6)'],
+        'trusted': ['build and its drivers: the frame clause same_except(old, final, index, ..) is an UNCONDITIONAL postcondition (it also holds on every error exit); the glue function pre_process_items is assumed to stay within the index (A6)'],
         'not_decided': [],
     },
     'C10': {
@@ -114,7 +113,7 @@ PROPS = {
                   **BUILD_CHAIN},
         'assumed_fns': FROZEN_ASSUMED + MAKE_ASSUMED + WB_ASSUMED + BUILD_ASSUMED + [('src/writer.rs', "impl BuildOption<'_>", 'cancelled')],
         'trusted': ['every heed / TmpNodes stand-in call and every poll of cancelled() may return an arbitrary Ok/Err: all fault sequences at all poll points are covered symbolically',
-                    'A1: used_tree_node swallows an error raised inside its try_fold (unwrap_or_default); harmless under the monotone callbacks the property quantifies over (DESIGN.md C10); that function is not under contract',
+                    'used_tree_node (unit used_nodes) returns a cancellation or read error met inside its try_fold (it used to turn it into "no id is used": defect F10, repaired)',
                     'Writer::build: r is Ok ==> built(..) (a complete, well-formed forest with its metadata), r is Err ==> the error is a heed/io error, BuildCancelled or DatabaseFull: Ok is never returned over a half-built forest, for every fault sequence at every poll point'] + BUILD_TRUSTED,
         'not_decided': ['abort restores the previous contents and a retry succeeds (LMDB, trusted)', 'temporary files and file descriptors are released (OS resources)',
                         ],
@@ -191,7 +190,7 @@ PROPS = {
                   # every new tree node written while trees are updated gets its id from the generator (freshness clauses of ins_post / mk_post)
                   'tree_insert': TREE_INSERT, 'tree_make': TREE_MAKE, 'insert_glue': ['Writer::insert_items_in_tree'],
                   'insert_driver': ['Writer::insert_items_in_current_trees'], 'iict_lib': None, 'incr_driver': ['Writer::incremental_index_large_descendants'], 'incr_lib': None,
-                  'build': ['Writer::build'], 'build_lib': None},
+                  'build': ['Writer::build'], 'build_lib': None, 'used_nodes': ['Writer::used_tree_node']},
         'assumed_fns': BUILD_ASSUMED + WB_ASSUMED + FROZEN_ASSUMED + MAKE_ASSUMED,
         'trusted': ['A-ticket: an atomic fetch_add never returns the same value twice before the counter wraps (the `used` budget check stops the generator before 2^32 requests); load()/store() give no ticket',
                     'RoaringBitmap::select is injective and returns members (axiom_nth, admitted)',
